@@ -9,8 +9,8 @@ from vf.ref import introspect as I
 from tartiflette import Resolver, Directive, Scalar, TypeResolver
 
 META = {
-    "bounds": "8 SDL models in up to 3 declaration orders (minimal; every kind once; wrappers to depth 3; defaults of every literal kind; `extend` of every kind + custom root names; custom directives / "
-              "@deprecated / @nonIntrospectable; schema-level @nonIntrospectable; implementers declared before/after their interface) x 4 ways of supplying the SDL (string, file, list of files, directory); "
+    "bounds": "9 SDL models in up to 3 declaration orders (minimal; every kind once; wrappers to depth 3; defaults of every literal kind; `extend` of every kind + custom root names; custom directives / "
+              "@deprecated / @nonIntrospectable; schema-level @nonIntrospectable; implementers declared before/after their interface; one definition per file, files without trailing newline ending in a bare name / comment / string) x 4 ways of supplying the SDL (string, file, list of files, directory); "
               "`__type(name:)` argument symbolic (all strings); includeDeprecated absent/null/true/false",
     "outside": "SDL outside the 7 models (the lark grammar/transformers only ever see these concrete renderings: a finite catalogue); declared names themselves are concrete "
                "(bake inserts them into dicts, which realises a symbolic name)",
@@ -79,6 +79,18 @@ M7 = [
     "interface Sided { side: Int }",
     "extend union Any = Circle",
 ]
+# file boundaries: files without a trailing newline that end with a bare name, a comment, a string or a directive
+M8 = [
+    "type Query { a: Int m: My t: T }",
+    "scalar My",
+    "type T { x: Int }  # a trailing comment",
+    "extend type Query { v: Int }",
+    "enum E { A B }\nextend type Query { e: E } # last line is a comment",
+    "union U = T",
+    "extend type T { u: U }",
+    'directive @tag(s: String = "end") on FIELD',
+    "interface I { i: Int }",
+]
 M6S = ["schema @nonIntrospectable { query: Query }", "type Query { a: Int b: Int @deprecated }"]
 def _orders(chunks):
     """declaration order must not matter: original, reversed, rotated (extensions kept after everything else when reversed)"""
@@ -87,7 +99,8 @@ def _orders(chunks):
     return [chunks, base[::-1] + ext[::-1], base[half:] + base[:half] + ext]
 
 
-MODELS = {"M1": M1, "M2": M2, "M3": M3, "M4": M4, "M5": M5, "M6": M6, "M7": M7, "M6S": M6S}
+MODELS = {"M1": M1, "M2": M2, "M3": M3, "M4": M4, "M5": M5, "M6": M6, "M7": M7, "M8": M8, "M6S": M6S}
+ONE_FILE_PER_CHUNK = {"M8"}
 for _n in ("M2", "M5", "M7"):
     _o = _orders(MODELS[_n])
     MODELS[_n + "r"] = _o[1]; MODELS[_n + "h"] = _o[2]
@@ -122,6 +135,8 @@ def supply(mname, mode):
         return p
     half = (len(chunks) + 1) // 2
     parts = [chunks[:half], chunks[half:]] if len(chunks) > 1 else [chunks]
+    if mname in ONE_FILE_PER_CHUNK:
+        parts = [[c] for c in chunks]
     if mode == "files":
         out = []
         for i, part in enumerate(parts):
@@ -130,7 +145,7 @@ def supply(mname, mode):
             out.append(p)
         return out
     for i, part in enumerate(parts):
-        open(os.path.join(d, "p%d.%s" % (i, "sdl" if i == 0 else "graphql")), "w").write("\n".join(part))
+        open(os.path.join(d, "p%02d.%s" % (i, "sdl" if i % 2 == 0 else "graphql")), "w").write("\n".join(part))
     return d
 
 
